@@ -4,17 +4,29 @@ META = {
     "level": "proof",
     "text": "Lean theorems over an executable model of security.go Authorized (per-user/DSN/table lookup in "
             "table_perms, restricted flag, exactly-one-record rule, per-operation switch), of the grant / revoke / "
-            "create / remove operations on table_perms, of the file DSN service (AuthDSN, GrantDSN, DeleteDSN) and of "
+            "create / remove operations on table_perms, of BOTH DSN services — the file service (AuthDSN, GrantDSN, "
+            "DeleteDSN) and the database service (dsn_sqldb.go ReadDSN / WriteDSN / DeleteDSN / RevokeAllDSN / AuthDSN / "
+            "GrantDSN with caches.DSNCache modelled as a memo next to the stored rows) — and of "
             "the authorization prologue of the four row handlers: for EVERY history of operations and EVERY "
             "user/DSN/table/operation, a non-administrator is authorized on a restricted DSN iff the store holds "
             "exactly one record for exactly that (user, DSN, table) and the record carries the operation (or "
             "admin); histories that never grant to (u,d,t) never authorize (u,d,t); an operation on another key "
             "never changes the decision for (u,d,t); a row request that passes implies the DSN-level and the "
-            "table-level grant. The model is tied to the code by a differential run: generated grant/revoke/DSN "
+            "table-level grant. For the database DSN service: after every history (writes, deletes, grants, cache "
+            "evictions, cache-filling queries) each DSN cache entry equals the stored row (C43_db_cacheOK_history), so "
+            "every row request is decided as if the stored row had been read (C43_db_cache_transparent) and a request "
+            "let through on a DSN that the STORE records as restricted had the DSN-level and the table grant "
+            "(C43_db_row_history); DSN-level grants are keyed by the pair (user, dsn), no cross-authorization for any "
+            "names (C43_db_dsn_no_cross); the first GrantDSN leaves the stored row restricted (C43_db_grant_restricts). "
+            "The model is tied to the code by a differential run: generated grant/revoke/DSN "
             "histories interleaved with direct Authorized/AuthDSN calls and real ReadRows/InsertRows/UpdateRows/"
-            "DeleteRows requests against the real SQLite permission store, diffed line by line with the model; the "
-            "model-free oracle is the harness's own struct-keyed record of who was granted what, cross-checked with "
-            "a raw SQL dump of table_perms.",
+            "DeleteRows requests against the real SQLite permission store, run against the file DSN service AND "
+            "against dsns.NewDatabaseService on SQLite (with cache evictions, and the shape: DSN created "
+            "unrestricted, used, restricted by its first DSN-level grant, then row requests by users with and without "
+            "grants), diffed line by line with the model; the "
+            "model-free oracle is the harness's own struct-keyed record of who was granted what and which DSNs are "
+            "restricted, cross-checked with raw SQL dumps of table_perms and, for the database service, of dsns and "
+            "dsns_auth (so: a DSN that the store records as restricted enforces the grants for non-administrators).",
     "note": "fixes/C43.patch: Authorized received dsn+\".\"+table and split at the first '.', so a request for "
             "(dsn a.b, table c) was decided as (dsn a, table b.c); the model mirrors the fixed code (separate "
             "parameters); C43_split_counterexample / C43_split_partial describe the old code. Known finding "
@@ -34,6 +46,8 @@ REQUIRED = [
     "C43_row_pass_needs_grants", "C43_grant_effect", "C43_revoke_effect", "C43_deleteByDSN_effect",
     "C43_split_counterexample", "C43_split_counterexample_unrestricted", "C43_split_partial",
     "C43_authdsn_iff", "C43_dsnkey_counterexample", "C43_dsnkey_partial", "C43_dsn_no_cross_partial",
+    "C43_db_cache_transparent", "C43_db_cacheOK_history", "C43_db_grant_restricts", "C43_db_row_pass_needs_grants",
+    "C43_db_row_history", "C43_db_stale_cache_counterexample", "C43_db_authdsn_iff", "C43_db_dsn_no_cross",
 ]
 
 
@@ -42,7 +56,8 @@ def run(ctx):
                     "uuid.NewString never repeats (records are addressed by id)",
                     "correspondence harness internal/server/tables/zz_verif_c43*_test.go + egodriver C43"]
     ctx.assumptions += ["the permission store is available (initPermissions() = true)",
-                        "the DSN service is the file service (dsns.NewFileService), as in the package's tests"]
+                        "the DSN service is the file service (dsns.NewFileService) or the database service "
+                        "(dsns.NewDatabaseService) on SQLite; one server process (no cluster cache invalidation)"]
     ctx.lean_audit(required=REQUIRED)
     if not ctx.quick:
         ctx.leanchecker()
@@ -61,7 +76,9 @@ def run(ctx):
         "evaluations": len(cases),
         "distinct_nontrivial": c.get("distinct_nontrivial", 0),
         "rule": "histories of GrantPermissions / DeletePermissions / createTablePermissions / removeTablePermissions / "
-                "DeletePermissionsByDSN / WriteDSN / DeleteDSN / RevokeAllDSN / GrantDSN over hostile name universes "
+                "DeletePermissionsByDSN / WriteDSN / DeleteDSN / RevokeAllDSN / GrantDSN (+ DSN cache evictions and the "
+                "unrestricted -> used -> restricted-by-first-grant shape) against the file DSN service and the database "
+                "DSN service on SQLite, over hostile name universes "
                 "(dots, pipes, quotes, ';', case variants, empty, non-ASCII; dot- and pipe-twins), each followed by 1-3 "
                 "queries (Authorized, AuthDSN, real row requests, filtered reads); non-trivial = distinct (query, store "
                 "state) pairs on a restricted DSN by a non-administrator with grants recorded",
